@@ -36,6 +36,34 @@ PROPS = {
                "every theorem is re-checked against them; extraction validated by executing the real predicates",
         "assumptions": ["reference = authentic emoji-data 13.0 + GraphemeBreakProperty 13.0.0 reconstructed from UAX #29 Table 2 over Python 3.9 unicodedata (DESIGN.md section 5)"],
     },
+    "C04": {
+        "lean_modules": ["RosedVerif.Props.C04"],
+        "theorems": [],
+        "groups": ["A-range", "A-chars"],
+        "oracle": True,
+        "tie": "hand-written model (Model/Editor.lean: Chars, subEd, RangeToIndexes) tied by A-range (exhaustive small) and A-chars",
+    },
+    "C05": {
+        "lean_modules": ["RosedVerif.Props.C05"],
+        "theorems": [],
+        "groups": ["A-commit", "A-chars", "POOL"],
+        "oracle": True,
+        "tie": "hand-written model (Model/Editor.lean: subEd, Commit, CommitAll, String) tied by A-commit, A-chars, POOL",
+    },
+    "C09": {
+        "lean_modules": ["RosedVerif.Props.C09"],
+        "theorems": [],
+        "groups": ["A-edit"],
+        "oracle": True,
+        "tie": "hand-written model (Model/Ops.lean: Insert, Delete, Overtype) tied by A-edit (exhaustive small sizes x positions + random)",
+    },
+    "C10": {
+        "lean_modules": ["RosedVerif.Props.C10"],
+        "theorems": [],
+        "groups": ["A-lines", "A-apply"],
+        "oracle": True,
+        "tie": "hand-written model (Model/Ops.lean: lines, Lines*, ApplyOpts) tied by A-lines, A-apply",
+    },
 }
 
 
